@@ -19,6 +19,7 @@ use crate::value::{CheapClone, JsString};
 impl Compiler {
     /// Compile a statement
     pub fn compile_statement_impl(&mut self, stmt: &Statement) -> Result<(), JsError> {
+        self.check_depth()?;
         // Registers only hold expression temporaries (variables live in environments),
         // so everything a statement allocated is dead when it ends.  Give the window
         // back: otherwise argument/element windows pile up and a long enough sequence
@@ -1105,6 +1106,7 @@ impl Compiler {
 
         // Create a new compiler for the function body
         let mut func_compiler = Compiler::new();
+        func_compiler.stack_base = self.stack_base;
 
         // Propagate source file for stack traces
         func_compiler.source_file = self.source_file.clone();
@@ -2047,6 +2049,7 @@ impl Compiler {
         use super::FunctionInfo;
 
         let mut func_compiler = Compiler::new();
+        func_compiler.stack_base = self.stack_base;
 
         // Copy the class context so private field access works inside the constructor
         func_compiler.class_context_stack = self.class_context_stack.clone();
@@ -2308,6 +2311,7 @@ impl Compiler {
         use super::FunctionInfo;
 
         let mut func_compiler = Compiler::new();
+        func_compiler.stack_base = self.stack_base;
 
         // Copy the class context so private field access works inside the constructor
         func_compiler.class_context_stack = self.class_context_stack.clone();
